@@ -144,6 +144,22 @@ class Stub:
                        cfgname=type(kw.get("eigenvector_computation_config")).__name__, est_dtype=None if est is None else str(est.dtype), A_dtype=str(A.dtype))
             base = f"Q{c}"
         rec["A_dtype"] = str(A.dtype)
+        rec["error"] = None
+        if self.kind == "eigvecs" and rec["cfgname"] == "QRConfig" and est is not None and A.dim() == 2 and A.numel() > 1 and not kw.get("is_diagonal", False):
+            # the orthogonal iteration starts with the power step A @ Q on a non-zero estimate: perform it so that
+            # operands the real routine cannot multiply (dtype mismatch) fail here exactly as they do there
+            try:
+                if bool(est.any()):
+                    A @ est
+            except (symx.PathEnd, symx.Restart, symx.PathViolation, symx.HarnessError):
+                raise
+            except Exception as e:
+                rec["error"] = f"{type(e).__name__}: {e}"
+                rec["outcome"] = "error"
+                rec["X"] = None
+                self.calls.append(rec)
+                CTX.calllog.append((self.kind, c, "error"))
+                raise
         outcome = self.run.fault(self.kind, c) if self.run is not None else "ok"
         rec["outcome"] = outcome
         rec["X"] = None
@@ -409,6 +425,8 @@ class OptRun:
 
     def compare_eigvec_call(self, c, A, Qprev):
         info = self._sig("eigenvector-argument")
+        symx.prove(f"the eigenvector routine accepts its operands (factor {c.get('A_dtype')} / estimate {c.get('est_dtype')}): {c.get('error')}", c.get("error") is None,
+                   self._sig("eigenvector-routine-rejects-operands"))
         n = c["n"]
         Ai = c["A"].reshape(n, n)
         A = np.array(A, dtype=object).reshape(n, n)
